@@ -120,10 +120,13 @@ def build(reg, src):
                                   Implies(VBool(z3.And(LEN(A(s)) > 0, LEN(B(s)) > 0)),
                                           elementwise(r, z3.If(LEN(A(s)) <= LEN(B(s)), LEN(A(s)), LEN(B(s))), lambda i: F2(A(s)[i], B(s)[i])))
                                   if is_seq(s.a0) else VBool(r.t == F2(A(s), B(s))))])
-    reg.fn(AD + 'eval_adverb_each_left', cases=[('list', atom_case(['a', 'b'], monad=False, atoms=['a']))], returns='opaque',
-           ensures=[lambda s, r: elementwise(r, LEN(B(s)), lambda i: F2(A(s), B(s)[i]))])
-    reg.fn(AD + 'eval_adverb_each_right', cases=[('list', atom_case(['a', 'b'], monad=False, atoms=['a']))], returns='opaque',
-           ensures=[lambda s, r: elementwise(r, LEN(B(s)), lambda i: F2(B(s)[i], A(s)))])
+    # "If b is an atom, then a f:\\b --> f(a;b) and a f:/b --> f(b;a)"  (reference text in the docstring)
+    reg.fn(AD + 'eval_adverb_each_left', cases=[('list', atom_case(['a', 'b'], monad=False, atoms=['a'])), ('atom', atom_case(['a', 'b'], monad=False, atoms=['a', 'b']))],
+           returns='opaque', raises=[],
+           ensures=[lambda s, r: elementwise(r, LEN(B(s)), lambda i: F2(A(s), B(s)[i])) if is_seq(s.b0) else same(r, VOpaque(F2(A(s), s.b0.t)))])
+    reg.fn(AD + 'eval_adverb_each_right', cases=[('list', atom_case(['a', 'b'], monad=False, atoms=['a'])), ('atom', atom_case(['a', 'b'], monad=False, atoms=['a', 'b']))],
+           returns='opaque', raises=[],
+           ensures=[lambda s, r: elementwise(r, LEN(B(s)), lambda i: F2(B(s)[i], A(s))) if is_seq(s.b0) else same(r, VOpaque(F2(s.b0.t, A(s))))])
     def str_case(eng, st):
         seq_case([], monad=False)(eng, st)
         st.env['a'] = VStr(z3.Const('a_str', z3.StringSort()))
@@ -329,6 +332,9 @@ def configure(eng):
         the result is the sequence R with |R| = n and R[i] = that term (a definitional extension)"""
         if kind != 'list' or node.generators[0].ifs:
             return None
+        if isinstance(it, VOpaque) and it.nonnull:
+            # an atom that is not a string (number, symbol, function): not iterable (assumed; empty lists / dictionaries are not in this case)
+            return [e.exc(st, 'TypeError', node)]
         seqs, mode = None, None
         is_sq2 = lambda v: is_seq(v) or isinstance(v, VStr)
         if is_sq2(it):
